@@ -528,7 +528,8 @@ pub(crate) fn run(
     #[cfg(feature = "verif_hooks")]
     {
         if crate::verif::max_stack_override() != 0 {
-            state.max_stack = crate::verif::max_stack_override();
+            // a horizon can only cut a run earlier than the crate's own cap would
+            state.max_stack = state.max_stack.min(crate::verif::max_stack_override());
         }
         if crate::verif::shadow_enabled() {
             state.shadow = Some(Vec::new());
